@@ -14,6 +14,7 @@ cases:
   equal-clocks-region  sort region with 300 equal-clock events (C16 R16.1: stability of ovnisort)
   cpu-index-redefined  the same CPU index bound to two physical ids (C15 R15.4: must be an error message)
   cpus-decreasing      two CPUs listed with decreasing index (C15 R15.1: emulator crashes)
+  remote-affinity-same-cpu  OAr naming the CPU the thread is already on (observation outside the 20 properties)
 """
 import json, os, struct, sys
 
@@ -86,5 +87,10 @@ elif case == "equal-clocks-region":
         evs.append(ev("OB.", 60, struct.pack("<I", i)))
     evs += [ev("OU]", 102), E(200)]
     write(out, evs)
+elif case == "remote-affinity-same-cpu":
+    # thread 1 runs on CPU 0 and sets (remotely) its own affinity to CPU 0
+    write(out, [X, ev("OAr", 20, struct.pack("<ii", 0, 1)), E(30)])
+elif case == "local-affinity-same-cpu":
+    write(out, [X, ev("OAs", 20, struct.pack("<i", 0)), E(30)])
 else:
     sys.exit("unknown case")
